@@ -35,14 +35,6 @@ def RuleBudget (p : Pool) (r : Rule) : Prop :=
 def BudgetOK (s : State) : Prop :=
   ∀ id p, getPool s id = some p → active s id p = true → ∀ r ∈ p.rules, RuleBudget p r
 
-/-- the F-farm-2 class of operations: `AdjustPool` in the end block of a started pool whose
-additional reward omits one of the pool's reward denoms -/
-def EndTopUp (s : State) : Op → Prop
-  | .adjustPool _ id add _ =>
-    ∃ p, getPool s id = some p ∧ s.height = p.endH ∧ p.start ≤ s.height ∧
-      ∃ r ∈ p.rules, amountOf (add.getD []) r.denom = 0
-  | _ => False
-
 /-- 10^18 -/
 def unit : Nat := 1000000000000000000
 
@@ -65,7 +57,6 @@ structure RuleAcc where
   deriving Inhabited
 
 structure Mon where
-  poisoned : List PoolId := []
   /-- pools whose refund has been observed -/
   ended    : List PoolId := []
   accs     : AMap (PoolId × Denom) RuleAcc := []
@@ -113,15 +104,10 @@ def fairB (l : Ledger) : Bool :=
   decide ((l.paid : Rat) - l.exact ≤ (l.n : Rat)) &&
   decide (l.exact - (l.paid : Rat) ≤ (l.n : Rat) + (l.slack : Rat) / (unit : Rat))
 
-def tag (m : Mon) (id : PoolId) (s : String) : String :=
-  if m.poisoned.contains id then s ++ " class=F-farm-2" else s
-
 /-- one monitor step -/
 def check (m : Mon) (pre : State) (op : Op) (res : String) (post : State) : Mon × List String := Id.run do
   let mut m := m
   let mut fails : List String := []
-  if let some id := C05.endTopUp pre op post then
-    m := { m with poisoned := id :: m.poisoned }
   -- per-pool budget clauses
   for (id, q) in post.pools do
     match getPool pre id with
@@ -142,7 +128,7 @@ def check (m : Mon) (pre : State) (op : Op) (res : String) (post : State) : Mon 
         -- refund exactly once: an ended pool is never touched again
         if !(q.rules.all (fun r => r.remaining == 0) && (q.rules.map (·.total)) == (p.rules.map (·.total)) &&
              !(post.queue.any fun e => e.2 = id) && !refundStep) then
-          fails := fails ++ [tag m id s!"clause=refund-once pool={id}"]
+          fails := fails ++ [s!"clause=refund-once pool={id}"]
       else
         for r in p.rules do
           match ruleOf q r.denom with
@@ -155,9 +141,9 @@ def check (m : Mon) (pre : State) (op : Op) (res : String) (post : State) : Mon 
             let rel := expectedRelease p q r
             if refundStep then
               if r'.remaining != 0 || left < rel then
-                fails := fails ++ [tag m id s!"clause=refund pool={id} denom={r.denom}"]
+                fails := fails ++ [s!"clause=refund pool={id} denom={r.denom}"]
             else if left != (rel : Int) then
-              fails := fails ++ [tag m id s!"clause=release pool={id} denom={r.denom}"]
+              fails := fails ++ [s!"clause=release pool={id} denom={r.denom}"]
             -- fairness reference: exact per-share accumulator
             if rel > 0 ∧ (refundStep ∨ left = (rel : Int)) then
               let ra := AMap.getD m.accs (id, r.denom) {}
@@ -165,14 +151,14 @@ def check (m : Mon) (pre : State) (op : Op) (res : String) (post : State) : Mon 
               m := { m with accs := AMap.set m.accs (id, r.denom) ra' }
         if refundStep then
           if (post.queue.any fun e => e.2 = id) then
-            fails := fails ++ [tag m id s!"clause=refund-dequeue pool={id}"]
+            fails := fails ++ [s!"clause=refund-dequeue pool={id}"]
           m := { m with ended := id :: m.ended }
         else if decide (post.height > q.endH) then
           -- the end height has passed without the refund having been observed
-          fails := fails ++ [tag m id s!"clause=refund-missed pool={id}"]
+          fails := fails ++ [s!"clause=refund-missed pool={id}"]
       -- budget solvency of active pools
       if C06.active post id q && !(C05.budgetOkPool q) then
-        fails := fails ++ [tag m id s!"clause=budget-solvency pool={id}"]
+        fails := fails ++ [s!"clause=budget-solvency pool={id}"]
   for (id, _) in pre.pools do
     if (getPool post id).isNone then fails := fails ++ [s!"clause=pool-vanished pool={id}"]
   -- who receives the refunds: the creator, exactly the budget that was left
@@ -196,9 +182,7 @@ def check (m : Mon) (pre : State) (op : Op) (res : String) (post : State) : Mon 
         for d in denoms.eraseDups do
           let delta : Int := (post.bank.balOf a d : Int) - pre.bank.balOf a d
           if delta != refundOf d a then
-            let poisonedHere := post.pools.any fun (id, q) => m.poisoned.contains id && q.creator == a
-            fails := fails ++ [(if poisonedHere then s!"clause=refund-recipient acct={a} denom={d} class=F-farm-2"
-                                else s!"clause=refund-recipient acct={a} denom={d}")]
+            fails := fails ++ [s!"clause=refund-recipient acct={a} denom={d}"]
   -- collector ledger: in = releases, out = payouts
   for d in denoms.eraseDups do
     let released : Int := (post.pools.map fun (id, q) =>
@@ -214,8 +198,7 @@ def check (m : Mon) (pre : State) (op : Op) (res : String) (post : State) : Mon 
       | .stake .. | .unstake .. | .harvest .. => if res == "ok" then (amountOf post.resp d : Int) else 0
       | _ => 0
     if (post.bank.balOf collectorAcc d : Int) != (pre.bank.balOf collectorAcc d : Int) + released - paidOut then
-      fails := fails ++ [(if C05.poisonedDenom { poisoned := m.poisoned } post d then s!"clause=collector-ledger denom={d} class=F-farm-2"
-                          else s!"clause=collector-ledger denom={d}")]
+      fails := fails ++ [s!"clause=collector-ledger denom={d}"]
   -- fairness against the exact rational reference
   if res == "ok" then
     match op with
@@ -226,7 +209,7 @@ def check (m : Mon) (pre : State) (op : Op) (res : String) (post : State) : Mon 
         m := bookFair m a id locked post.resp q.rules
         for r in q.rules do
           if !(fairB (AMap.getD m.ledger (a, id, r.denom) {})) then
-            fails := fails ++ [tag m id s!"clause=fairness farmer={a} pool={id} denom={r.denom}"]
+            fails := fails ++ [s!"clause=fairness farmer={a} pool={id} denom={r.denom}"]
       | none => pure ()
     | _ => pure ()
   return (m, fails)
